@@ -276,6 +276,11 @@ pub struct WorldCfg {
 	/// every block carries one transaction with as many outputs as the block weight allows (10):
 	/// the quickest way to more than 1024 outputs, i.e. to a second chunk of the unspent bitmap
 	pub fat_outputs: bool,
+	/// side branches fork off the trunk at heights 1-4, i.e. far (50+ blocks) below the tip of a long trunk
+	pub fork_deep: bool,
+	/// every block carries exactly one 1-input / 1-output transaction: competing blocks then have the
+	/// same shape (same MMR sizes, same number of unspent leaves) and differ only in what they spend
+	pub uniform_txs: bool,
 }
 
 impl WorldCfg {
@@ -298,6 +303,8 @@ impl WorldCfg {
 			fork_near_tip: 0,
 			sibling_bias: false,
 			fat_outputs: false,
+			fork_deep: false,
+			uniform_txs: false,
 		}
 	}
 }
@@ -395,7 +402,7 @@ impl World {
 		let mut txs = vec![];
 		let mut note = String::new();
 		let late_zone = self.cfg.sibling_bias && height >= 70;
-		if !late_zone && !self.cfg.fat_outputs && !self.rng.chance(self.cfg.tx_pct, 100) {
+		if !late_zone && !self.cfg.fat_outputs && !self.cfg.uniform_txs && !self.rng.chance(self.cfg.tx_pct, 100) {
 			return (txs, note);
 		}
 		let ledger = self.blocks[parent].ledger.clone();
@@ -412,18 +419,18 @@ impl World {
 			let horizon = global::cut_through_horizon() as u64;
 			pool.sort_by_key(|o| (!live.contains(&(o.leaf ^ 1)) && o.height + horizon < height) as u8);
 		}
-		if self.cfg.fat_outputs {
+		if self.cfg.fat_outputs || self.cfg.uniform_txs {
 			// the largest output goes last (popped first): it always covers the fee of an 11-output tx
 			pool.sort_by_key(|o| o.value);
 		}
 		let mut nrd_used: Vec<CommitKey> = vec![];
-		let n_txs = if self.cfg.fat_outputs { 1 } else { self.rng.range(1, self.cfg.max_txs as u64) as usize };
+		let n_txs = if self.cfg.fat_outputs || self.cfg.uniform_txs { 1 } else { self.rng.range(1, self.cfg.max_txs as u64) as usize };
 		// outputs created by earlier txs of this block, spendable by later ones (cut-through)
 		let mut fresh: Vec<OutInfo> = vec![];
 		// weight budget: block max weight 250, coinbase = 21+3
 		let mut weight_left: i64 = global::max_block_weight() as i64 - 30;
 		for _ in 0..n_txs {
-			let n_in = if self.cfg.fat_outputs { 1 } else { self.rng.range(1, 2) as usize };
+			let n_in = if self.cfg.fat_outputs || self.cfg.uniform_txs { 1 } else { self.rng.range(1, 2) as usize };
 			let mut ins = vec![];
 			for _ in 0..n_in {
 				if !fresh.is_empty() && self.rng.chance(1, 3) {
@@ -440,7 +447,7 @@ impl World {
 					*self.stats.entry("coinbase_spent_exactly_at_maturity".into()).or_insert(0) += 1;
 				}
 			}
-			let n_out = if self.cfg.fat_outputs { 10 } else { self.rng.range(1, 3) as usize };
+			let n_out = if self.cfg.fat_outputs { 10 } else if self.cfg.uniform_txs { 1 } else { self.rng.range(1, 3) as usize };
 			let w = (n_in as i64) + 21 * (n_out as i64) + 3;
 			if w > weight_left {
 				break;
@@ -836,9 +843,17 @@ impl World {
 			} else {
 				max_h.saturating_sub(self.cfg.max_branch_depth + 4)
 			};
+			let deep = self.cfg.fork_deep;
 			let cands: Vec<usize> = trunk_ids
 				.into_iter()
-				.filter(|id| self.blocks[*id].height >= lo_h && self.blocks[*id].height < max_h)
+				.filter(|id| {
+					let h = self.blocks[*id].height;
+					if deep {
+						self.blocks[*id].branch == 0 && h >= 1 && h <= 4
+					} else {
+						h >= lo_h && h < max_h
+					}
+				})
 				.collect();
 			if cands.is_empty() {
 				continue;
